@@ -303,3 +303,45 @@ package xslices
 //@   ensures forall j int {result[j]} :: 0 <= j && j < len(result) ==> runOf(s, result[j])
 //@   ensures forall j int {result[j]} :: 0 <= j && j < len(result) - 1 ==> off(result[j+1]) == off(result[j]) + len(result[j]) && !same(row(s)[off(result[j+1]) - 1], row(s)[off(result[j+1])])
 //@   ensures forall j int, t int {result[j], row(s)[t]} :: 0 <= j && j < len(result) && off(result[j]) <= t && t < off(result[j]) + len(result[j]) - 1 ==> same(row(s)[t], row(s)[t+1])
+
+// ---- Unique: first occurrences, in order ----
+
+//@ func uniqueInto
+//@   props C19
+//@   requires len(into) == 0 && (cap(into) == 0 || (arr(into) == arr(s) && off(into) == off(s)))
+//@   modifies elems(into)
+//@   ghostinit src := lambda j int :: 0
+//@   after assign into[0]: ghost src := store(src, len(into) - 1, i)
+//@   loop 0: invariant m != nil && fresh(m) && len(into) <= idx0 && (cap(into) == 0 || arr(into) == arr(s) && off(into) == off(s) || fresh(into))
+//@   loop 0: invariant (old(cap(into)) > 0 && old(cap(into)) >= len(s)) ==> arr(into) == old(arr(into)) && off(into) == old(off(into)) && cap(into) == old(cap(into))
+//@   loop 0: invariant forall x T {has(m, x)} :: has(m, x) <==> (exists t int :: 0 <= t && t < idx0 && old(s[t]) == x)
+//@   loop 0: invariant forall j int {into[j]} :: 0 <= j && j < len(into) ==> 0 <= src[j] && src[j] < idx0 && into[j] == old(s[src[j]]) && j <= src[j] && (forall t int {old(s[t])} :: 0 <= t && t < src[j] ==> old(s[t]) != into[j])
+//@   loop 0: invariant forall j int, j2 int {src[j], src[j2]} :: 0 <= j && j < j2 && j2 < len(into) ==> src[j] < src[j2]
+//@   loop 0: invariant forall t int {s[t]} :: idx0 <= t && t < len(s) ==> s[t] == old(s[t])
+//@   loop 0: invariant forall t int {old(s[t])} :: 0 <= t && t < idx0 ==> (exists j int :: 0 <= j && j < len(into) && into[j] == old(s[t]))
+//@   ensures len(result) <= len(s)
+//@   ensures forall j int {result[j]} :: 0 <= j && j < len(result) ==> 0 <= src[j] && src[j] < len(s) && result[j] == old(s[src[j]]) && (forall t int {old(s[t])} :: 0 <= t && t < src[j] ==> old(s[t]) != result[j])
+//@   ensures forall j int, j2 int {src[j], src[j2]} :: 0 <= j && j < j2 && j2 < len(result) ==> src[j] < src[j2]
+//@   ensures forall t int {old(s[t])} :: 0 <= t && t < len(s) ==> (exists j int :: 0 <= j && j < len(result) && result[j] == old(s[t]))
+//@   ensures (old(cap(into)) > 0 && old(cap(into)) >= len(s)) ==> arr(result) == old(arr(into)) && off(result) == old(off(into))
+
+//@ func Unique
+//@   props C19
+//@   ghostinit src := lambda j int :: 0
+//@   after call uniqueInto[0]: ghost src := callghost_src
+//@   ensures len(result) <= len(s)
+//@   ensures forall t int {s[t]} :: 0 <= t && t < len(s) ==> s[t] == old(s[t])
+//@   ensures forall j int {result[j]} :: 0 <= j && j < len(result) ==> 0 <= src[j] && src[j] < len(s) && result[j] == s[src[j]] && (forall t int {s[t]} :: 0 <= t && t < src[j] ==> s[t] != result[j])
+//@   ensures forall j int, j2 int {result[j], result[j2]} :: 0 <= j && j < j2 && j2 < len(result) ==> src[j] < src[j2] && result[j] != result[j2]
+//@   ensures forall t int {s[t]} :: 0 <= t && t < len(s) ==> (exists j int :: 0 <= j && j < len(result) && result[j] == s[t])
+
+//@ func UniqueInPlace
+//@   props C19
+//@   modifies elems(s)
+//@   ghostinit src := lambda j int :: 0
+//@   after call uniqueInto[0]: ghost src := callghost_src
+//@   ensures len(result) <= len(s) && (len(s) > 0 ==> arr(result) == arr(s) && off(result) == off(s))
+//@   ensures forall j int {result[j]} :: 0 <= j && j < len(result) ==> 0 <= src[j] && src[j] < len(s) && result[j] == old(s[src[j]]) && (forall t int {old(s[t])} :: 0 <= t && t < src[j] ==> old(s[t]) != result[j])
+//@   ensures forall j int, j2 int {result[j], result[j2]} :: 0 <= j && j < j2 && j2 < len(result) ==> src[j] < src[j2] && result[j] != result[j2]
+//@   ensures forall t int {old(s[t])} :: 0 <= t && t < len(s) ==> (exists j int :: 0 <= j && j < len(result) && result[j] == old(s[t]))
+//@   ensures forall t int {s[t]} :: len(result) <= t && t < len(s) ==> s[t] == zero(T)
